@@ -52,7 +52,7 @@ theorem reach_empty {conc : Bool} {c : Nat} {ac acl : Bool} {flt : Fault} {s : C
     tied to the code on those.) -/
 theorem conc_history_sorted_multiset (c : Nat) (hc : 1 ≤ c) (conc ac acl : Bool) (h : List Cycle)
     (hwf : wellFormed ac h = true) {s : CState}
-    (hr : Reach (sys conc c ac acl (histOps h) none) s) (hfin : finished s = true) :
+    (hr : Reach (sys conc c ac acl (histOps h) []) s) (hfin : finished s = true) :
     HistorySpec ac h s.outs.reverse := by
   cases h with
   | nil =>
@@ -70,8 +70,8 @@ theorem conc_history_sorted_multiset (c : Nat) (hc : 1 ≤ c) (conc ac acl : Boo
     same for every schedule and the same as in the sequential mode -/
 theorem conc_history_schedule_independent (c : Nat) (hc : 1 ≤ c) (ac acl : Bool) (h : List Cycle)
     (hwf : wellFormed ac h = true) {conc₁ conc₂ : Bool} {s₁ s₂ : CState}
-    (hr₁ : Reach (sys conc₁ c ac acl (histOps h) none) s₁) (hfin₁ : finished s₁ = true)
-    (hr₂ : Reach (sys conc₂ c ac acl (histOps h) none) s₂) (hfin₂ : finished s₂ = true) :
+    (hr₁ : Reach (sys conc₁ c ac acl (histOps h) []) s₁) (hfin₁ : finished s₁ = true)
+    (hr₂ : Reach (sys conc₂ c ac acl (histOps h) []) s₂) (hfin₂ : finished s₂ = true) :
     s₁.outs.reverse.map Out.keyed = s₂.outs.reverse.map Out.keyed := by
   have keyed := @Biogo.Properties.C11.historySpec_keyed ac
   rw [keyed h _ (conc_history_sorted_multiset c hc conc₁ ac acl h hwf hr₁ hfin₁),
@@ -86,7 +86,7 @@ theorem conc_history_schedule_independent (c : Nat) (hc : 1 ≤ c) (ac acl : Boo
     returned from its last call the outputs of the accepted calls satisfy `HistorySpec ac h`. -/
 theorem conc_history_rejected_push_noop (c : Nat) (hc : 1 ≤ c) (conc ac acl : Bool) (h : List Cycle)
     (hwf : wellFormed ac h = true) (ops : List Op) (hops : dropRejects ops = histOps h)
-    {s : CState} (hr : Reach (sys conc c ac acl ops none) s) (hfin : finished s = true) :
+    {s : CState} (hr : Reach (sys conc c ac acl ops []) s) (hfin : finished s = true) :
     HistorySpec ac h (dropRejOuts s.outs.reverse) := by
   have hr' := reach_erase hr
   rw [hops] at hr'
@@ -101,10 +101,10 @@ theorem conc_history_rejected_push_noop (c : Nat) (hc : 1 ≤ c) (conc ac acl : 
     each cycle with the caller reaches a finished state; the second cycle delivers 3 4, not the
     2 left over from the first -/
 example : ∃ s, Reach (sys true 1 false false
-      (histOps [⟨[⟨2, 0⟩, ⟨1, 0⟩], 1, true⟩, ⟨[⟨4, 0⟩, ⟨3, 0⟩], 3, false⟩]) none) s
+      (histOps [⟨[⟨2, 0⟩, ⟨1, 0⟩], 1, true⟩, ⟨[⟨4, 0⟩, ⟨3, 0⟩], 3, false⟩]) []) s
     ∧ finished s = true ∧ s.writers.length = 2
     ∧ s.outs.reverse.filterMap (·.val) = [⟨1, 0⟩, ⟨3, 0⟩, ⟨4, 0⟩] := by
-  let S := sys true 1 false false (histOps [⟨[⟨2, 0⟩, ⟨1, 0⟩], 1, true⟩, ⟨[⟨4, 0⟩, ⟨3, 0⟩], 3, false⟩]) none
+  let S := sys true 1 false false (histOps [⟨[⟨2, 0⟩, ⟨1, 0⟩], 1, true⟩, ⟨[⟨4, 0⟩, ⟨3, 0⟩], 3, false⟩]) []
   let sched := [0, 0, 0, 1, 0, 1, 0, 1, 0, 1, 0, 1, 0, 0, 0, 0, 0, 0, 0, 0, 0, 0, 0, 2, 0, 2, 0, 2, 0, 2, 0, 2, 0, 0, 0, 0, 0, 0, 0]
   have h : (runFrom S S.init sched).isSome = true := by decide
   obtain ⟨s, hs⟩ := Option.isSome_iff_exists.mp h
